@@ -466,6 +466,18 @@ def check_writer_helpers(ctx: Ctx, rule: str):
         tails = [t[len(plain):] for t in texts if t and t.startswith(plain + " # {")]
         oku = bool(tails) and all(f"{a0}.unit_str" in t and f"{a0}.comment.text" in t for t in tails)
         ctx.check(oku, rule, pas.key("unit"), "unit / comment appended after #", "print_assignment no longer appends the unit or comment", pas.where())
+        # whether the annotation is written is decided by the annotation texts themselves (present or not, the
+        # dimensionless "1"): a decision taken from the parsed pint unit (or anything else) drops declared units that
+        # happen to be dimensionless for pint - radian, percent, mM/mM - from the saved file
+        cond_syms = set()
+        for c_, _leaf in _branches(_av.distribute_ifs(util.value_of(ctx, pas))):
+            for k_ in c_:
+                for kind_ in ("sym", "attr", "mcall", "call"):
+                    for t_ in _av.find_all(k_, kind_):
+                        cond_syms.add(_av.show(t_))
+        allowed = {f"{a0}.unit_str", f"{a0}.comment", f"{a0}.comment.text", a0}
+        extra = sorted(x for x in cond_syms if x not in allowed and not x.startswith(("'", '"')))
+        ctx.check(not extra, rule, pas.key("unit-guard"), "the annotation is written depending on unit_str / comment only", f"print_assignment decides what to append from `{extra[0] if extra else ''}`: a unit string the model declares can be left out of the saved file although it is there (the reloaded model then has no unit for that expression)", pas.where())
     so = sm.func("codegen/ode.py", "start_odeblock")
     v = util.value_of(ctx, so)
     if _av.has_unk(v):
